@@ -63,6 +63,9 @@ st2 = make(struct { S struct { A []int64 } })
 		return s
 	}))
 	must(e.Define("swap", func(p, q interface{}) (interface{}, interface{}) { return q, p }))
+	must(e.Define("arr2", func(a [2]int64) int64 { return a[0] + a[1] }))
+	must(e.Define("arr0", func(a [0]string) int64 { return 0 }))
+	must(e.Define("arrs", func(a [][2]int64) int64 { return int64(len(a)) }))
 	must(e.Define("boom", func() { panic("boom") }))
 	must(e.Define("boomv", func(xs ...interface{}) interface{} { panic(fmt.Sprint("boomv", len(xs))) }))
 	must(e.Define("nilerr", func() error { return nil }))
@@ -188,6 +191,9 @@ var degenerateForms = []string{
 	"qq = [[1]]\nfunc ff() { qq[0] = 7; return 0 }\nqq[0][ff()]", "qq = [[1, 2]]\nfunc ff() { qq[0] = 7; return 1 }\nqq[0][ff():]", "qq = [1]\nfunc ff() { qq[0] = [1]; return 0 }\nx[qq[0]] = ff()\nx[qq[0]]",
 	// reflect.FuncOf refuses more than 128 words of signature: a function literal with very many parameters
 	"ff = func(p0, p1, p2, p3, p4, p5, p6, p7, p8, p9, p10, p11, p12, p13, p14, p15, p16, p17, p18, p19, p20, p21, p22, p23, p24, p25, p26, p27, p28, p29, p30, p31, p32, p33, p34, p35, p36, p37, p38, p39, p40, p41, p42, p43, p44, p45, p46, p47, p48, p49, p50, p51, p52, p53, p54, p55, p56, p57, p58, p59, p60, p61, p62, p63, p64, p65, p66, p67, p68, p69, p70, p71, p72, p73, p74, p75, p76, p77, p78, p79, p80, p81, p82, p83, p84, p85, p86, p87, p88, p89, p90, p91, p92, p93, p94, p95, p96, p97, p98, p99, p100, p101, p102, p103, p104, p105, p106, p107, p108, p109, p110, p111, p112, p113, p114, p115, p116, p117, p118, p119, p120, p121, p122, p123, p124, p125, p126, p127, p128, p129) { return 1 }", "func gg(p0, p1, p2, p3, p4, p5, p6, p7, p8, p9, p10, p11, p12, p13, p14, p15, p16, p17, p18, p19, p20, p21, p22, p23, p24, p25, p26, p27, p28, p29, p30, p31, p32, p33, p34, p35, p36, p37, p38, p39, p40, p41, p42, p43, p44, p45, p46, p47, p48, p49, p50, p51, p52, p53, p54, p55, p56, p57, p58, p59, p60, p61, p62, p63, p64, p65, p66, p67, p68, p69, p70, p71, p72, p73, p74, p75, p76, p77, p78, p79, p80, p81, p82, p83, p84, p85, p86, p87, p88, p89, p90, p91, p92, p93, p94, p95, p96, p97, p98, p99, p100, p101, p102, p103, p104, p105, p106, p107, p108, p109, p110, p111, p112, p113, p114, p115, p116, p117, p118, p119, p120, p121, p122, p123, p124, p125, p126, p127, p128, p129, rest...) { return 1 }\ngg()", "func() { return func(p0, p1, p2, p3, p4, p5, p6, p7, p8, p9, p10, p11, p12, p13, p14, p15, p16, p17, p18, p19, p20, p21, p22, p23, p24, p25, p26, p27, p28, p29, p30, p31, p32, p33, p34, p35, p36, p37, p38, p39, p40, p41, p42, p43, p44, p45, p46, p47, p48, p49, p50, p51, p52, p53, p54, p55, p56, p57, p58, p59, p60, p61, p62, p63, p64, p65, p66, p67, p68, p69, p70, p71, p72, p73, p74, p75, p76, p77, p78, p79, p80, p81, p82, p83, p84, p85, p86, p87, p88, p89, p90, p91, p92, p93, p94, p95, p96, p97, p98, p99, p100, p101, p102, p103, p104, p105, p106, p107, p108, p109, p110, p111, p112, p113, p114, p115, p116, p117, p118, p119, p120, p121, p122, p123, p124, p125, p126, p127, p128, p129) { } }()",
+	// Go functions with array parameters: Go converts a slice to an array only when it is long enough
+	"arr2([1])", "arr2([1, 2])", "arr2([1, 2, 3])", "arr2([])", "arr2(make([]int64, 1))", "arr2(make([]int64, 3))", "arr2(make([]int64, 0))", "arr2(nilslice)", "arr2(c)", "arr2(\"ab\")", "arr0([1])", "arr0([])",
+	"arrs([[1]])", "arrs([[1, 2, 3]])", "arrs([make([]int64, 1)])", "arrs(make([][]int64, 2))", "go arr2([1])", "defer arr2([1, 2, 3])", "arr2([1]...)",
 	"func rec(n) { return rec(n) }", "type T struct", "struct", "chan", "map", "len", "return 1, ", "throw", "break", "continue", "return",
 }
 
